@@ -17,8 +17,16 @@ from .error_codes cimport (ErrorCode,
                            MAGIC_NUMBER_DOES_NOT_MATCH,
                            VERSION_NUMBER_DOES_NOT_MATCH,
                            INITIAL_ERROR_CODE,
-                           ONLY_ONE_OUTCOME_PER_EVENT,
-                           ERROR_CODES)
+                           ONLY_ONE_OUTCOME_PER_EVENT)
+
+# a Python object cannot be cimported from error_codes.pxd
+ERROR_CODES = """
+    NO_ERROR = 0
+    MAGIC_NUMBER_DOES_NOT_MATCH = 1
+    VERSION_NUMBER_DOES_NOT_MATCH = 2
+    INITIAL_ERROR_CODE = 3
+    ONLY_ONE_OUTCOME_PER_EVENT = 7
+    """
 
 
 def learn_inplace_binary_to_binary(binary_file_paths,
